@@ -239,6 +239,22 @@ def summarize_sql(sql):
 
 # ------------------------------------------------------------------ (b) fault enumeration
 
+LONG = 400
+
+
+def coq_wanted(coq, step, events, out):
+    """Very long traces (field sample: thousands of INSERTs per step) make the case
+    files slow to parse: keep 3 such cases per step, count the rest."""
+    if len(events) <= LONG:
+        return True
+    n = coq.setdefault('long', {}).get(step, 0)
+    coq['long'][step] = n + 1
+    if n < 3:
+        return True
+    out.count('coq-case-skipped-long-trace')
+    return False
+
+
 def classify_dump(got, pre, post):
     return 'OPre' if got == pre else 'OPost' if got == post else 'OMixed'
 
@@ -267,12 +283,13 @@ def one_fault(w, step, pre_file, pre, post, full_events, k, mode, out, case, coq
     if oc == 'OPre' and exc is not None:
         out.nontriv(('fault', w.tag, step, k, mode))
     try:
-        coq['txn'].append(('(%s, %s, %s, %s)' % (cevs(full_events), cevs(tr.events),
-                                               'None' if (mode == 'interrupt' or 'sample' in w.rec)
-                                               else '(Some %s)' % csql(tr.sql), oc),
-                           c, 'step=%s point=%d(%s) mode=%s attempt=%s sql=%s outcome=%s exc=%s'
-                           % (step, k, point[0], mode, summarize(tr.events), summarize_sql(tr.sql), oc,
-                              type(exc).__name__)))
+        if coq_wanted(coq, step, full_events, out):
+            coq['txn'].append(('(%s, %s, %s, %s)' % (cevs(full_events), cevs(tr.events),
+                                                   'None' if (mode == 'interrupt' or 'sample' in w.rec)
+                                                   else '(Some %s)' % csql(tr.sql), oc),
+                               c, 'step=%s point=%d(%s) mode=%s attempt=%s sql=%s outcome=%s exc=%s'
+                               % (step, k, point[0], mode, summarize(tr.events), summarize_sql(tr.sql), oc,
+                                  type(exc).__name__)))
     except ValueError as e:
         out.violation('oracle', '`%s` under fault: %s' % (step, e), case=c)
     # the step can be run again
@@ -328,7 +345,7 @@ def check_kills(w, jobs, pres, posts, events, out, case, coq):
                              diff_tables(got, pres[step]), diff_tables(got, posts[step])), case=c)
         # model: the events of the fault-free run up to the point, then nothing
         att = events_before_point(events[step], k)
-        if att is not None:
+        if att is not None and coq_wanted(coq, step, events[step][0], out):
             coq['txn'].append(('(%s, %s, None, %s)' % (cevs(events[step][0]), cevs(att), oc), c,
                                'step=%s kill at point %d (%s) attempt=%s outcome=%s'
                                % (step, k, point[0], summarize(att), oc)))
